@@ -23,6 +23,7 @@ import (
 	"encoding/json"
 	"errors"
 	"fmt"
+	"os"
 	"runtime"
 	"sort"
 	"strings"
@@ -126,7 +127,15 @@ func guard(f func()) (panicked bool, msg string) {
 
 func msgBytes(seed int64, n int) []byte { return cref.Det(byte(saltMsg+16*int(seed%8)), n) }
 
-func cp(b []byte) []byte { return append([]byte{}, b...) }
+// cp returns a private copy with cap == len.  Every []byte handed to the
+// package under test is such a copy, so that a callee that writes into its
+// arguments or their spare capacity (property C17) cannot corrupt the inputs of
+// later calls of this check.
+func cp(b []byte) []byte {
+	o := make([]byte, len(b))
+	copy(o, b)
+	return o
+}
 
 func resize(b []byte, n int, salt byte) []byte {
 	if n <= len(b) {
@@ -314,11 +323,11 @@ func execEnc(cs Case, seed int64, one func(call)) {
 	p, pm := guard(func() {
 		switch cs.Fn {
 		case "Encrypt":
-			ct, tag, cerr = kit.Encrypt(pt, cs.Alg, key, nonce, aad)
+			ct, tag, cerr = kit.Encrypt(cp(pt), cs.Alg, key, cp(nonce), cp(aad))
 		case "EncryptSymmetric":
-			ct, tag, cerr = kit.EncryptSymmetric(pt, cs.Alg, key, nonce, aad)
+			ct, tag, cerr = kit.EncryptSymmetric(cp(pt), cs.Alg, key, cp(nonce), cp(aad))
 		case "EncryptPublicKey":
-			ct, cerr = kit.EncryptPublicKey(pt, cs.Alg, key, aad)
+			ct, cerr = kit.EncryptPublicKey(cp(pt), cs.Alg, key, cp(aad))
 		}
 	})
 	if p {
@@ -342,11 +351,11 @@ func execEnc(cs Case, seed int64, one func(call)) {
 	p, pm = guard(func() {
 		switch cs.Fn {
 		case "Encrypt":
-			back, derr = kit.Decrypt(ct, cs.Alg, dkey, nonce, tag, aad)
+			back, derr = kit.Decrypt(cp(ct), cs.Alg, dkey, cp(nonce), cp(tag), cp(aad))
 		case "EncryptSymmetric":
-			back, derr = kit.DecryptSymmetric(ct, cs.Alg, dkey, nonce, tag, aad)
+			back, derr = kit.DecryptSymmetric(cp(ct), cs.Alg, dkey, cp(nonce), cp(tag), cp(aad))
 		case "EncryptPublicKey":
-			back, derr = kit.DecryptPrivateKey(ct, cs.Alg, dkey, aad)
+			back, derr = kit.DecryptPrivateKey(cp(ct), cs.Alg, dkey, cp(aad))
 		}
 	})
 	c.Rt = yn(!p && derr == nil && bytes.Equal(back, pt))
@@ -451,11 +460,11 @@ func execDec(cs Case, seed int64, pos positions, r *run, one func(call)) {
 		p, pm := guard(func() {
 			switch cs.Fn {
 			case "Decrypt":
-				out, cerr = kit.Decrypt(ct, cs.Alg, key, nonce, tagArg, aad)
+				out, cerr = kit.Decrypt(cp(ct), cs.Alg, key, cp(nonce), cp(tagArg), cp(aad))
 			case "DecryptSymmetric":
-				out, cerr = kit.DecryptSymmetric(ct, cs.Alg, key, nonce, tagArg, aad)
+				out, cerr = kit.DecryptSymmetric(cp(ct), cs.Alg, key, cp(nonce), cp(tagArg), cp(aad))
 			case "DecryptPrivateKey":
-				out, cerr = kit.DecryptPrivateKey(ct, cs.Alg, key, aad)
+				out, cerr = kit.DecryptPrivateKey(cp(ct), cs.Alg, key, cp(aad))
 			}
 		})
 		if p {
@@ -506,7 +515,7 @@ func execSign(cs Case, seed int64, one func(call)) {
 	}
 	var sig []byte
 	var cerr error
-	p, pm := guard(func() { sig, cerr = kit.SignPrivateKey(digest, cs.Alg, key) })
+	p, pm := guard(func() { sig, cerr = kit.SignPrivateKey(cp(digest), cs.Alg, key) })
 	if p {
 		one(call{Outcome: "panic", Rt: "na", Ref: "na", Noout: "na", Detail: pm})
 		return
@@ -521,7 +530,7 @@ func execSign(cs Case, seed int64, one func(call)) {
 	pub, _ := cref.JWK(pubKind(cs.KeyKind), cs.KeyBits, 0)
 	var valid bool
 	var verr error
-	p, _ = guard(func() { valid, verr = kit.VerifyPublicKey(digest, sig, cs.Alg, pub) })
+	p, _ = guard(func() { valid, verr = kit.VerifyPublicKey(cp(digest), cp(sig), cs.Alg, pub) })
 	c.Rt = yn(!p && verr == nil && valid)
 	if v, known := refVerify(cs, cref.Raw(pubKind(cs.KeyKind), cs.KeyBits, 0), digest, sig); known {
 		ok := v
@@ -556,7 +565,7 @@ func execVerify(cs Case, seed int64, pos positions, r *run, one func(call)) {
 	do := func(idx, x int, digest, sig []byte) {
 		var valid bool
 		var cerr error
-		p, pm := guard(func() { valid, cerr = kit.VerifyPublicKey(digest, sig, cs.Alg, key) })
+		p, pm := guard(func() { valid, cerr = kit.VerifyPublicKey(cp(digest), cp(sig), cs.Alg, key) })
 		if p {
 			one(call{Idx: idx, Xor: x, Outcome: "panic", Rt: "na", Ref: "na", Noout: "na", Detail: pm})
 			return
@@ -608,7 +617,7 @@ func execKW(cs Case, seed int64, pos positions, r *run, one func(call)) {
 	if cs.Fn == "aeskw.Wrap" {
 		var out []byte
 		var cerr error
-		p, pm := guard(func() { out, cerr = aeskw.Wrap(blk, data) })
+		p, pm := guard(func() { out, cerr = aeskw.Wrap(blk, cp(data)) })
 		if p {
 			one(call{Outcome: "panic", Rt: "na", Ref: "na", Noout: "na", Detail: pm})
 			return
@@ -621,7 +630,7 @@ func execKW(cs Case, seed int64, pos positions, r *run, one func(call)) {
 		}
 		var back []byte
 		var uerr error
-		p, pm = guard(func() { back, uerr = aeskw.Unwrap(blk, out) })
+		p, pm = guard(func() { back, uerr = aeskw.Unwrap(blk, cp(out)) })
 		c.Rt = yn(!p && uerr == nil && bytes.Equal(back, data))
 		if p {
 			c.Detail = "round trip panicked: " + pm
@@ -639,7 +648,7 @@ func execKW(cs Case, seed int64, pos positions, r *run, one func(call)) {
 	do := func(idx, x int, in []byte) {
 		var out []byte
 		var cerr error
-		p, pm := guard(func() { out, cerr = aeskw.Unwrap(blk, in) })
+		p, pm := guard(func() { out, cerr = aeskw.Unwrap(blk, cp(in)) })
 		if p {
 			one(call{Idx: idx, Xor: x, Outcome: "panic", Rt: "na", Ref: "na", Noout: "na", Detail: pm})
 			return
@@ -682,7 +691,7 @@ func execAEAD(cs Case, seed int64, pos positions, r *run, one func(call)) {
 	nonce := cref.Det(saltNonce, cs.NonceLen)
 	if cs.Fn == "aescbcaead.Seal" {
 		var out []byte
-		pk, pm := guard(func() { out = aead.Seal(nil, nonce, pt, aad) })
+		pk, pm := guard(func() { out = aead.Seal(nil, cp(nonce), cp(pt), cp(aad)) })
 		if pk {
 			one(call{Outcome: "panic", Rt: "na", Ref: "na", Noout: "na", Detail: pm})
 			return
@@ -690,7 +699,7 @@ func execAEAD(cs Case, seed int64, pos positions, r *run, one func(call)) {
 		c := call{Outcome: "ok", Rt: "na", Ref: "na", Noout: "na"}
 		var back []byte
 		var oerr error
-		pk, _ = guard(func() { back, oerr = aead.Open(nil, nonce, out, aad) })
+		pk, _ = guard(func() { back, oerr = aead.Open(nil, cp(nonce), cp(out), cp(aad)) })
 		c.Rt = yn(!pk && oerr == nil && bytes.Equal(back, pt))
 		rct, rtag, rerr := p.Seal(key, nonce, pt, aad)
 		if rerr == nil {
@@ -706,7 +715,7 @@ func execAEAD(cs Case, seed int64, pos positions, r *run, one func(call)) {
 	do := func(idx, x int, ct, tag, nonce, aad []byte) {
 		var out []byte
 		var oerr error
-		pk, pm := guard(func() { out, oerr = aead.Open(nil, nonce, append(cp(ct), tag...), aad) })
+		pk, pm := guard(func() { out, oerr = aead.Open(nil, cp(nonce), cp(append(cp(ct), tag...)), cp(aad)) })
 		if pk {
 			one(call{Idx: idx, Xor: x, Outcome: "panic", Rt: "na", Ref: "na", Noout: "na", Detail: pm})
 			return
@@ -862,6 +871,15 @@ func TestCheck(t *testing.T) {
 		go cref.Warm(3072)
 	}
 
+	if rp := os.Getenv("VERIF_REPLAY"); rp != "" {
+		xs := func(idx int) []int { return []int{1 << (uint(idx) % 8)} }
+		if thorough {
+			xs = func(idx int) []int { return []int{0x01, 0x02, 0x04, 0x08, 0x10, 0x20, 0x40, 0x80, 0xff} }
+		}
+		replay(e, rp, seed, positions{full: true, xors: xs})
+		return
+	}
+
 	// 1. model check the implementation-shaped dispatch against the contract; TLC writes the case space
 	mcCfg := ev.Pick("MC_small.cfg", "MC_big.cfg")
 	mcCh := make(chan tlc.Result, 1)
@@ -980,6 +998,23 @@ func TestCheck(t *testing.T) {
 		return
 	}
 	e.Set("traces_validated_against_impl", int64(b.Len()))
+	report(e, cases, runs, b, rej, listTraces)
+	if s := <-stCh; s != "" {
+		e.Inconclusive(s)
+	}
+	rejected := map[string]string{}
+	for range defects {
+		d := <-defCh
+		rejected[d[0]] = d[1]
+		if d[1] != "rejected" {
+			e.Inconclusive("defect model MC_defect_" + d[0] + ".cfg: " + d[1])
+		}
+	}
+	e.Set("defect_models", rejected)
+}
+
+// report maps every rejected run to its stable finding key (one VIOLATION per key).
+func report(e *ev.Evidence, cases []Case, runs []run, b *tv.Batch, rej []tv.Reject, listTraces map[int]string) {
 	type agg struct {
 		why   string
 		cases []tv.M
@@ -1020,18 +1055,49 @@ func TestCheck(t *testing.T) {
 		a := found[k]
 		e.Violation(k, a.why, tv.M{"rejected_runs": a.cases, "trace": b.TraceStrings(a.first)})
 	}
-	if s := <-stCh; s != "" {
-		e.Inconclusive(s)
+}
+
+// replay re-executes the cases of a replay file and judges them alone.
+func replay(e *ev.Evidence, path string, seed int64, pos positions) {
+	raw, err := os.ReadFile(path)
+	if err != nil {
+		e.Inconclusive("cannot read replay file: " + err.Error())
+		return
 	}
-	rejected := map[string]string{}
-	for range defects {
-		d := <-defCh
-		rejected[d[0]] = d[1]
-		if d[1] != "rejected" {
-			e.Inconclusive("defect model MC_defect_" + d[0] + ".cfg: " + d[1])
+	var f struct {
+		Replay struct {
+			Runs []struct {
+				Case Case `json:"case"`
+			} `json:"rejected_runs"`
+		} `json:"replay"`
+	}
+	if err := json.Unmarshal(raw, &f); err != nil || len(f.Replay.Runs) == 0 {
+		e.Inconclusive(fmt.Sprintf("replay file has no cases: %v", err))
+		return
+	}
+	cref.Warm(1024, 2048)
+	b := &tv.Batch{}
+	var cases []Case
+	var runs []run
+	var n int64
+	for _, r := range f.Replay.Runs {
+		if r.Case.Alg == "" && strings.HasPrefix(r.Case.Fn, "Supported") {
+			continue
 		}
+		ru := execCase(r.Case, seed, pos)
+		cases, runs = append(cases, r.Case), append(runs, ru)
+		record(b, r.Case, ru, pos.full)
+		n += int64(len(ru.calls))
+		fmt.Printf("replay %+v -> %+v\n", r.Case, ru.calls)
 	}
-	e.Set("defect_models", rejected)
+	rej, res := tv.Validate(tlc.Opts{Dir: "CryptoDispatch", Module: "TraceCrypto", Config: ev.Pick("Trace_small.cfg", "Trace_big.cfg"), Workers: 2, Timeout: 3 * time.Minute}, b)
+	if !res.OK && !res.Violation {
+		e.Inconclusive("trace validation did not run: " + res.What)
+		return
+	}
+	e.Set("evaluations", n)
+	e.Set("traces_validated_against_impl", int64(b.Len()))
+	report(e, cases, runs, b, rej, map[int]string{})
 }
 
 // selfTest: binding self-test on real recorded runs — the unmodified runs are
@@ -1089,10 +1155,10 @@ func selfTest(e *ev.Evidence, cases []Case, seed int64, pos positions) string {
 			dropped = append(dropped, l)
 		}
 	}
-	b.AppendTrace(dropped)                                                // 5: one byte position never mutated
-	b.AppendTrace(rewrite(g.Trace(2), `"rt":"yes"`, `"rt":"no"`, 0))       // 6: round trip broken
-	b.AppendTrace(rewrite(g.Trace(2), `"ref":"yes"`, `"ref":"no"`, 0))     // 7: reference disagrees
-	b.AppendTrace(rewrite(g.Trace(0), `"inLen":16`, `"inLen":5000`, 0))    // 8: a case outside the specification's case space
+	b.AppendTrace(dropped)                                              // 5: one byte position never mutated
+	b.AppendTrace(rewrite(g.Trace(2), `"rt":"yes"`, `"rt":"no"`, 0))    // 6: round trip broken
+	b.AppendTrace(rewrite(g.Trace(2), `"ref":"yes"`, `"ref":"no"`, 0))  // 7: reference disagrees
+	b.AppendTrace(rewrite(g.Trace(0), `"inLen":16`, `"inLen":5000`, 0)) // 8: a case outside the specification's case space
 	rej, res := tv.Validate(tlc.Opts{Dir: "CryptoDispatch", Module: "TraceCrypto", Config: "Trace_small.cfg", Workers: 2, Timeout: 3 * time.Minute}, b)
 	got := map[int]string{}
 	for _, r := range rej {
